@@ -69,6 +69,8 @@ def payload_spec(tier, seed, i):
             kind = 'hugearray'
         elif i % 29 == 0:
             kind = 'bigarray'
+    if i == 7 or (i > len(CORE) and i % 41 == 0):     # the function without parameters (its body is fixed)
+        return dict(sig='noargs', kind='nested', seed=12345, nlog=2, dress=0)
     return dict(sig=SIGNATURES[(i + seed) % len(SIGNATURES)], kind=kind, seed=int(s), nlog=NLOGS[(i * 3 + seed) % len(NLOGS)], dress=0)
 
 
